@@ -172,9 +172,11 @@ class Gen:
         ins = [(self.names.fresh("i"), r.choice(["INT", "BOOL"])) for _ in range(r.randint(1, 3))]
         outs = [(self.names.fresh("o"), r.choice(["INT", "BOOL"])) for _ in range(r.randint(1, 2))]
         locs = [(self.names.fresh("l"), r.choice(["INT", "BOOL"])) for _ in range(r.randint(1, 3))]
-        lines = ["FUNCTION_BLOCK %s" % n, "VAR_INPUT"] + ["  %s : %s;" % v for v in ins] + ["END_VAR", "VAR_OUTPUT"] + \
+        # some boolean inputs detect an edge (R_EDGE / F_EDGE): inputs like the others for the body and for callers
+        edges = {v: r.choice(["R_EDGE", "F_EDGE"]) for v, t in ins if t == "BOOL" and r.random() < 0.4}
+        lines = ["FUNCTION_BLOCK %s" % n, "VAR_INPUT"] + ["  %s : %s%s;" % (v, t, " " + edges[v] if v in edges else "") for v, t in ins] + ["END_VAR", "VAR_OUTPUT"] + \
                 ["  %s : %s;" % v for v in outs] + ["END_VAR", "VAR"] + ["  %s : %s;" % v for v in locs]
-        info = {"inputs": ins, "outputs": outs, "locals": locs}
+        info = {"inputs": ins, "outputs": outs, "locals": locs, "edges": edges}
         calls = []
         if enums and r.random() < 0.6:
             e = r.choice(enums)
